@@ -141,7 +141,7 @@ let run (path : string) =
        let benv = { Gauge.be_farm = farms; be_recv = recvs; be_ext = xenvs } in
        let o = Gauge.Begin (now, benv) in
        (* known-finding classes met by this step (on the state it starts from) *)
-       let k2 = Gauge.kf2_gauges m.Gauge.r_gauges farms recvs and k3 = Gauge.kf3_exts now m.Gauge.r_exts xenvs in
+       let k2 = Gauge.kf2_begin now benv m and k3 = Gauge.kf3_begin now benv m in
        if !dirty = "none" then (if k2 then dirty := "kf_C19_2" else if k3 then dirty := "kf_C19_3");
        if k2 then bump "kf:C19_2:met"; if k3 then bump "kf:C19_3:met";
        (* the implementation's own share calculation for the allocation that is due: diff + share predicate *)
